@@ -80,6 +80,15 @@ func (g *Gen) bkSigners(not map[basics.Address]bool) []*Acct {
 	return l
 }
 
+// bkRcv picks a receiver that already holds funds (a small payment to an empty account would be
+// refused for the receiver's minimum balance, which is not what any of these observers is after).
+func (g *Gen) bkRcv() basics.Address {
+	if f := g.funded(); len(f) > 0 {
+		return f[g.n(len(f))].Addr
+	}
+	return g.anyAcct().Addr
+}
+
 // bkPay builds a plain payment valid in the next round (no lease, fresh note, short life).
 func (g *Gen) bkPay(from, to basics.Address, amt, fee uint64) transactions.Transaction {
 	*g.uniq++
@@ -164,7 +173,7 @@ func (o *bkCommitObs) ExtraGroups(s *Sim, g *Gen, ev *eval.BlockEvaluator, hdr *
 	}
 	for i := 0; i < 2; i++ {
 		a := signers[g.n(len(signers))]
-		if st, ok := g.bkSign(g.bkPay(a.Addr, g.anyAcct().Addr, uint64(1000+g.n(5000)), minFee)); ok {
+		if st, ok := g.bkSign(g.bkPay(a.Addr, g.bkRcv(), uint64(1000+g.n(5000)), minFee)); ok {
 			cands = append(cands, Candidate{Txns: []transactions.SignedTxn{st}, Poison: "", Info: bkCommitInfo{"plain-pay"}})
 		}
 	}
@@ -175,7 +184,7 @@ func (o *bkCommitObs) ExtraGroups(s *Sim, g *Gen, ev *eval.BlockEvaluator, hdr *
 	base := make([]transactions.Transaction, n)
 	for i := range base {
 		a := signers[g.n(len(signers))]
-		base[i] = g.bkPay(a.Addr, g.anyAcct().Addr, uint64(1000+g.n(5000)), minFee)
+		base[i] = g.bkPay(a.Addr, g.bkRcv(), uint64(1000+g.n(5000)), minFee)
 	}
 	gid := bkGroupID(base)
 	for i := range base {
@@ -191,7 +200,7 @@ func (o *bkCommitObs) ExtraGroups(s *Sim, g *Gen, ev *eval.BlockEvaluator, hdr *
 			v = append(v[:j:j], v[j+1:]...)
 		case "add":
 			a := signers[g.n(len(signers))]
-			e := g.bkPay(a.Addr, g.anyAcct().Addr, uint64(1000+g.n(5000)), minFee)
+			e := g.bkPay(a.Addr, g.bkRcv(), uint64(1000+g.n(5000)), minFee)
 			e.Group = gid
 			at := g.n(n + 1)
 			v = append(v[:at:at], append([]transactions.Transaction{e}, v[at:]...)...)
@@ -203,7 +212,7 @@ func (o *bkCommitObs) ExtraGroups(s *Sim, g *Gen, ev *eval.BlockEvaluator, hdr *
 			case 0:
 				v[j].Amount.Raw++
 			case 1:
-				v[j].Receiver = g.anyAcct().Addr
+				v[j].Receiver = g.bkRcv()
 				if v[j].Receiver == base[j].Receiver {
 					v[j].Amount.Raw += 7
 				}
